@@ -8,6 +8,21 @@ HERE = os.path.dirname(os.path.dirname(os.path.abspath(__file__)))
 
 # id -> (technique, level text, level note, design ref)
 CLAIMS = {
+    "C20": (
+        "must-dataflow over both run loops (sibling agreement on the component-API order); block-level typestate of the "
+        "pipe protocol against a frozen stage-transition table, with guard propagation; duality rules between parent "
+        "sends and worker receives; pairing rules for pre-computation, discard and drain; process lifecycle rule",
+        "Decides necessary structural conditions of 'multi-process commits the same events': both mediators execute the "
+        "commit protocol in the same order on every path; every pipe operation of the parent performs exactly one legal "
+        "stage transition under the matching stage, the parent sends exactly when the worker's wrapper receives and the "
+        "worker loop is the dual automaton; out-states are pre-computed only for argument-free handlers, a trashed "
+        "handler's stored out-state is deleted and its running computation drained; the committed out-state is the one of "
+        "the scheduler's handler; every worker process is registered, terminated and joined. Schedule independence and "
+        "deadlock freedom as wholes (interleavings) are not decided by this family.",
+        "Trusted: the stage-transition table PATTERNS in jfsa/props/c20.py and the REQUIRES table of "
+        "jfsa/mediator_rules.py (frozen oracles read off the protocol); role identification of the stage table and the "
+        "start / continue event tables from the Process arguments.",
+        "DESIGN.md section 3, C20"),
     "C19": (
         "table agreement between __getstate__ and __setstate__ (set comparison of removed / re-created attributes and "
         "keys); ownership rule for cffi data; writer/reader agreement of the dump payload; package-wide source "
